@@ -13,7 +13,8 @@
 (* the stack is empty at the end:                                           *)
 (*    c(f)    f is a callee (static call graph) of the function on top      *)
 (*    r(f)    f is on top                                                   *)
-(*    l(f,n)  f is on top and n is a line of f (0 = the `def` line)         *)
+(*    l(f,n)  f is on top and n is a line of the body of f (the `def`       *)
+(*            line is line 0 and is reported by the start event only)       *)
 (* These operators are shared by the model (TraceEvents.tla: the event      *)
 (* sequences of the reference semantics) and by the validator of recorded   *)
 (* streams (TraceEvents_Trace.tla).                                         *)
@@ -32,5 +33,5 @@ CallOK(stk, f, callees) ==
 RetOK(stk, f) == stk # <<>> /\ Top(stk) = f
 
 \* sizes[f] = number of lines of the body of f; lines are relative to the `def` line
-LineOK(stk, f, n, sizes) == stk # <<>> /\ Top(stk) = f /\ n >= 0 /\ n <= sizes[f]
+LineOK(stk, f, n, sizes) == stk # <<>> /\ Top(stk) = f /\ n >= 1 /\ n <= sizes[f]
 =============================================================================
